@@ -113,7 +113,19 @@ theorem onBatch_names_after_acquire (cfg : Config) (now : Parts) (id : Nat) (b :
     obtain ⟨res, oa, s2⟩ := w
     simp only at hw
     cases res with
-    | retry b' => cases oa <;> exact hw
+    | retry b' =>
+      have key : names (syncWritten okPlan a.name b b' s2).2.fs = names s1.fs := by
+        unfold syncWritten
+        split
+        · have hf : flushFile okPlan s2 = .ok () s2.tick := rfl
+          simp only [hf]
+          have hy := syncAll_names a.name s2.tick
+          cases hs : syncAll okPlan a.name s2.tick with
+          | err s4 => simp only [hs, R.st] at hy ⊢; rw [hy]; exact hw
+          | crash s4 => simp only [hs, R.st] at hy ⊢; rw [hy]; exact hw
+          | ok u s4 => simp only [hs, R.st] at hy ⊢; rw [hy]; exact hw
+        · exact hw
+      cases oa <;> exact key
     | noRetry => cases oa <;> exact hw
     | crashed => cases oa <;> exact hw
     | ok =>
